@@ -3,7 +3,8 @@
 Oracle: specs/Legacy/LegacyView.tla (View(fn, mode, cap, msg)).
   1. TLC (LegacyGen.tla) enumerates the message space (BFS: every message of every family up to 3
      answer RRs, and every in-order alias chain of 0..3 links x independently chosen TTLs x 1..2
-     addresses; thorough: additionally -simulate with larger alphabets/bounds), checks the
+     addresses; LegacyMixGen.tla: 0..2 aliases followed by up to 5 address records each of which is
+     freely an A or an AAAA record; thorough: additionally -simulate with larger alphabets/bounds), checks the
      invariants of the views on every message and prints every message + call plan as JSON.
   2. harness/legacy builds each message through the public record setters, serialises it, calls
      every planned legacy parser (capacities 0..N, all modes) on the bytes and on truncated /
@@ -145,7 +146,9 @@ def wire_cases():
 
 # ------------------------------------------------------------------ harness + validation
 def run_harness(exe, vec_path, out_path, seed, timeout):
-    env = {"ASAN_OPTIONS": "detect_leaks=1:abort_on_error=0:halt_on_error=1:exitcode=99",
+    # redzone=128: a store through an index that drifted up to 16 pointer slots past the end of a small block lands in
+    # the redzone (default 16 bytes: the 3rd slot past the end is already the next live block -- silent corruption)
+    env = {"ASAN_OPTIONS": "detect_leaks=1:abort_on_error=0:halt_on_error=1:exitcode=99:redzone=128",
            "UBSAN_OPTIONS": "print_stacktrace=1:halt_on_error=1"}
     rc, out = vlib.sh([exe, vec_path, out_path, str(seed)], timeout=timeout, env=env)
     if rc == 0 and re.search(r"ERROR: \w+Sanitizer|runtime error:", out):
